@@ -214,6 +214,19 @@ def text_checks(schema, od, rb, exp, probs, replay):
             m = re.search(r'(?<![A-Za-z0-9_])%s_verify_as_root\(const void \*buf, size_t bufsiz\)\s*\{\s*return flatcc_verify_struct_as_root\(buf, bufsiz, [^,]+, (\d+), (\d+)\)' % re.escape(c), v)
             if m and (int(m.group(1)), int(m.group(2))) != (size, al):
                 bad('text:verifier-struct', 'verifier uses size/align %s/%s for %s, rule says %d/%d' % (m.group(1), m.group(2), c, size, al), struct=c); return
+        elif d.kind == 'union':
+            m = re.search(r'static int %s_union_verifier\(flatcc_union_verifier_descriptor_t \*ud\)\s*\{(.*?)\n\}' % re.escape(c), v, flags=re.S)
+            if not m:
+                bad('text:union-verifier-missing', 'no union verifier for ' + c, union=c); return
+            cases = {int(a): (fn, [x.strip() for x in args.split(',')[1:]]) for a, fn, args in re.findall(r'case (\d+): return flatcc_verify_union_(\w+)\(([^)]*)\);', m.group(1))}
+            for n_, val, t_ in d.values():
+                if t_ is None: continue
+                got = cases.get(val)
+                if t_[0] == 'string': want_u = ('string', [])
+                elif t_[0] == 'table': want_u = ('table', [t_[1].cname() + '_verify_table'])
+                else: want_u = ('struct', [str(lay[t_[1]][1]), str(lay[t_[1]][2])])
+                if got is None or (got[0], got[1]) != want_u:
+                    bad('text:union-verifier-member', 'union verifier of %s checks member %s (type %d) with %r, the rules say %r' % (c, n_, val, got, want_u), union=c, member=n_); return
         elif d.kind == 'table':
             live = {f['name']: (f, iv) for f, iv in zip(d.fields, ids[d]) if not f.get('deprecated')}
             seen = set()
@@ -245,6 +258,15 @@ def text_checks(schema, od, rb, exp, probs, replay):
                 elif t[0] == 'struct': want = (lay[t[1]][1], lay[t[1]][2])
                 if want and fn == 'field' and (int(rest[0]), int(rest[1])) != want:
                     bad('text:verifier-field-size', 'verifier checks %s.%s with size/align %s, rule says %s' % (c, nm, rest[:2], want), table=c, field=nm); return
+                if f.get('nested') is not None and f['nested'].kind == 'struct':
+                    ns_ = f['nested']; want_n = (lay[ns_][1], lay[ns_][2])
+                    if fn != 'struct_as_nested_root' or (int(rest[2]), int(rest[3])) != want_n:
+                        bad('text:verifier-nested-struct-root', 'verifier checks the nested struct root %s.%s with %s%r, rule says size/align %r of %s' % (
+                            c, nm, fn, rest, want_n, ns_.cname()), table=c, field=nm); return
+                    mb = re.search(r'^__\w*build_nested_struct_root\(\w+, %s_%s, (\w+), (\d+),' % (re.escape(c), re.escape(nm)), b, flags=re.M)
+                    if not mb or mb.group(1) != ns_.cname() or int(mb.group(2)) != want_n[1]:
+                        bad('text:builder-nested-struct-align', 'builder starts the nested struct root %s.%s with type/alignment %s, rule says %s/%d' % (
+                            c, nm, mb.groups() if mb else 'absent', ns_.cname(), want_n[1]), table=c, field=nm); return
                 if t[0] == 'vec' and fn == 'vector_field':
                     e = t[1]
                     w = (G.ssize(e[1]),) * 2 if e[0] == 'scalar' else (G.ssize(e[1].type),) * 2 if e[0] == 'enum' else (lay[e[1]][1], lay[e[1]][2])
@@ -484,6 +506,12 @@ def run(ctx):
         made.append(w)
     tb = G.Table('Tdep', []); tb.fields = [{'name': 'f%d' % j, 'type': ('struct', st), 'attrs': []} for j, st in enumerate(made[:40])] + \
         [{'name': 'v%d' % j, 'type': ('vec', ('struct', st)), 'attrs': []} for j, st in enumerate(made[40:60])]
+    fa16 = list(dict.fromkeys([x for x in made if x.force_align == 16][:6] + made[:4]))
+    ud = G.Union('Udep', []); ud.members = [[x.name, ('struct', x), None, False] for x in fa16] + [['Tdep', ('table', tb), None, False], ['Sx', ('string',), None, True]]
+    tb.fields += [{'name': 'n%d' % j, 'type': ('vec', ('scalar', 'ubyte')), 'nested': x, 'attrs': []} for j, x in enumerate(fa16)]
+    tb.fields += [{'name': 'nt', 'type': ('vec', ('scalar', 'ubyte')), 'nested': tb, 'attrs': []}, {'name': 'ud', 'type': ('union', ud), 'attrs': []},
+                  {'name': 'udv', 'type': ('vec', ('union', ud)), 'attrs': []}]
+    made.append(ud)
     dfl.decls = made + [tb]; dfl.root_type = tb
     for d in dfl.decls: d.file = dfl
     schemas.append(dep); nS += 1
